@@ -366,6 +366,9 @@ def main(argv):
         return 2
     pid = argv[1]
     seed = int(os.environ.get('VERIF_SEED', '0'))
+    if os.environ.get('VERIF_COV'):
+        import cov
+        cov.install(os.environ['VERIF_COV'], os.path.join(os.environ.get('WPULL_REPO', '/repo'), 'wpull') + os.sep)
     replay = None
     if argv[2] == '--replay':
         replay = argv[3]
